@@ -1930,8 +1930,8 @@ theorem discard_unlease {c : Nat} {s : State} (h : Link (some c) s) (si : SockIn
     link_unlease (connClose_linkx c h si) (fun cn hcn => connClose_sock_none _ _ _ hcn)
   exact putConn_linkx none h1 ((connClose_safe s c).sockInj si)
 
-theorem discard_none_link {L : Option Nat} {s : State} (h : Link L s) (si : SockInj s) : Link L (discard s none).1 :=
-  putConn_linkx none h si
+theorem discard_none_link {L : Option Nat} {s : State} (h : Link L s) (_si : SockInj s) : Link L (discard s none).1 :=
+  h
 
 theorem forget_linkx {L X : Option Nat} {s : State} (c : Nat) (h : LinkX L X s) : LinkX L X (forgetClosedPending s c) := by
   unfold forgetClosedPending
@@ -3108,6 +3108,19 @@ theorem request_link {A : Nat → Attempt → Prop} (rid : Nat) : ∀ (script : 
     | some e => exact h
     | none =>
     dsimp only
+    -- a `pool_timeout` that `queue.get` rejects: `ValueError` out of `_get_conn`, the state is untouched
+    rcases getConnT_cases s rc.badPoolTimeout with hT | ⟨hT, -⟩
+    rotate_left
+    · rw [hT]
+      dsimp only
+      have pp := (discard_safe s none).prov p
+      have pd := discard_none_link h p.sockInj'
+      split
+      · exact h
+      · exact afterDiscard _ _ _ pp pd
+      · exact afterDiscard _ _ _ pp pd
+      · exact afterDiscardRec _ _ _ _ hneHop pp pd
+    rw [hT]
     have l1 := getConn_link h p.sockInj'
     generalize hg : getConn s = res at l1
     obtain ⟨s1, eg⟩ := res
